@@ -268,6 +268,31 @@ class Symex:
     call; ``opaque_attr``: attribute reads on terms stay terms (always).
     """
 
+    # hash-order provenance (opt-in, set after construction): ``set_order`` = 0 | 1 iterates every concrete set / frozenset
+    # in a canonical order (0) or its reverse (1) - also for list()/tuple()/sorted()/zip()/join and set.pop() - instead of
+    # CPython's hash order; ``iter_log`` (dict) receives id(iteration node) -> [sequence of element keys per execution], so
+    # that two runs with the two orders show which iteration sites the hash order reaches and whether the result depends on it
+    set_order = None
+    iter_log = None
+
+    @staticmethod
+    def order_key(x):
+        if isinstance(x, Obj):
+            return "O:" + str(x.name)
+        if isinstance(x, (tuple, list)):
+            return "(" + ",".join(Symex.order_key(y) for y in x) + ")"
+        if isinstance(x, (set, frozenset)):
+            return "{" + ",".join(sorted(Symex.order_key(y) for y in x)) + "}"
+        if isinstance(x, dict):
+            return "{" + ",".join(sorted(f"{Symex.order_key(k)}:{Symex.order_key(v)}" for k, v in x.items())) + "}"
+        return repr(x)
+
+    def set_sequence(self, s):
+        seq = sorted(s, key=Symex.order_key)
+        if self.set_order:
+            seq.reverse()
+        return seq
+
     def __init__(self, model, inline=None, hooks=None, unroll=2, max_paths=512, max_steps=200000, what="?",
                  assume_asserts=True, isinstance_hook=None, attr_hook=None, max_depth=12, cut_loops=False,
                  oracle=None, occurrence=None, recursion_error=False, normalize=None, obj_identity=False):
@@ -701,6 +726,14 @@ class Symex:
 
     def iterate(self, it, node):
         """Python-level sequence of the elements of a value."""
+        if self.set_order is not None or self.iter_log is not None:
+            r = self.set_sequence(it) if self.set_order is not None and isinstance(it, (set, frozenset)) else self._iterate(it, node)
+            if self.iter_log is not None and node is not None and not isinstance(r, _CountSeq):
+                self.iter_log.setdefault(id(node), []).append(tuple(Symex.order_key(x) for x in r))
+            return r
+        return self._iterate(it, node)
+
+    def _iterate(self, it, node):
         if isinstance(it, dict):
             return list(it.keys())
         if isinstance(it, _CountSeq):
@@ -1878,6 +1911,8 @@ class Symex:
 
     def ext_call(self, name, args, kw, node):
         short = name.split(".")[-1]
+        if self.set_order is not None and short in _ORDERED_READERS and any(isinstance(a, (set, frozenset)) for a in args):
+            args = [self.iterate(a, node) if isinstance(a, (set, frozenset)) else a for a in args]
         for hk in (name, short):
             if hk in self.hooks and callable(self.hooks[hk]):
                 r = self.hooks[hk](self, list(args), kw)
@@ -1992,6 +2027,19 @@ class Symex:
                 and args and not isinstance(args[0], T) and all(isinstance(a, int) for a in args[1:]):
             import itertools
             return [tuple(p) for p in getattr(itertools, short)(list(self.iterate(args[0], node)), *args[1:])]
+        if short == "groupby" and name in ("groupby", "itertools.groupby") and args and not isinstance(args[0], (T, Obj)):
+            # consecutive runs of equal keys, as itertools does it (concrete keys only)
+            seq = list(self.iterate(args[0], node))
+            kf = kw.get("key", args[1] if len(args) > 1 else None)
+            keys = [x if kf is None else self.call_value(kf, [x], {}, node) for x in seq]
+            if not any(_has_sym(k) or isinstance(k, Obj) for k in keys):
+                out = []
+                for x, k in zip(seq, keys):
+                    if out and _eq(out[-1][0], k):
+                        out[-1][1].append(x)
+                    else:
+                        out.append((k, [x]))
+                return out
         if name in ("Rational", "sympy.Rational") and len(args) == 2 and all(is_num(a) for a in args) and args[1] != 0:
             return t_div(args[0], args[1])
         if short == "sqrt" and len(args) == 1 and (is_num(args[0]) or isinstance(args[0], T)):
@@ -2180,6 +2228,13 @@ class Symex:
         return acc
 
     def container_method(self, o, attr, a, kw, node):
+        if self.set_order is not None:
+            if isinstance(o, set) and attr == "pop" and not a and o:
+                x = self.iterate(o, node)[0]
+                o.remove(x)
+                return x
+            if isinstance(o, str) and attr == "join" and a and isinstance(a[0], (set, frozenset)):
+                a = [self.iterate(a[0], node)] + list(a[1:])
         if isinstance(o, _DefaultDict):
             pass
         if isinstance(o, dict):
@@ -2383,6 +2438,11 @@ class _KeysView(list):
 
     def __sub__(self, o):
         return {k for k in self if k not in o}
+
+
+_ORDERED_READERS = {"list", "tuple", "enumerate", "zip", "reversed", "iter", "map", "filter", "chain", "from_iterable", "product",
+                    "permutations", "combinations", "combinations_with_replacement", "islice", "deque", "sorted", "next", "sum",
+                    "min", "max", "groupby", "dict", "Counter"}
 
 
 class _DefaultDict(dict):
